@@ -543,6 +543,16 @@ def execute(ctx, spec):
     pr = predict(spec)
     arr = build_array(spec)
     f = PDBFile()
+    if ctx.index % 3 == 0:
+        # the file object has been used before: a 2-model, 3-atom structure with a box (CRYST1, MODEL, ATOM, CONECT-free);
+        # set_structure() replaces the content, nothing of the earlier structure may survive
+        old = struc.AtomArrayStack(2, 3)
+        old.coord = np.arange(18, dtype=np.float32).reshape(2, 3, 3)
+        old.chain_id[:], old.res_id[:], old.res_name[:] = "Q", 901, "OLD"
+        old.atom_name[:], old.element[:] = "XX", "X"
+        old.box = np.array([np.eye(3) * 77.0] * 2, dtype=np.float32)
+        f.set_structure(old)
+        ctx.op("file_object_reused")
     hy = spec["hybrid36"]
     ctx.op("set_structure:%s%s" % ("stack" if spec["stack"] else "array", "+hybrid36" if hy else ""))
     raised = None
